@@ -1896,7 +1896,7 @@ fn main() {
     );
 
     let general = Profile { grid_w: 2, w: [4, 12, 14, 10, 24, 8, 5, 4, 3, 2, 3, 14, 2], max_len: if run.is_thorough() { 100 } else { 40 } };
-    let n = run.scale(6_000, 60_000);
+    let n = run.scale(6_000, 45_000);
     run.section(
         "histories",
         "random histories (3..=40 commands, thorough 100) over 3 context slots (Minimal/Plain, new/default) with names from all classes (built-in, plain, with ':', file based); non-trivial = a registration AFTER an instantiation that looked up the same name in the same context, or a cache clear / grid file removal while a grid operator is live, or a concurrent burst with live handles; distinct by command/name signature",
@@ -1906,7 +1906,7 @@ fn main() {
     );
 
     let gridp = Profile { grid_w: 14, w: [5, 5, 8, 5, 24, 8, 3, 15, 10, 8, 8, 5, 14], max_len: if run.is_thorough() { 80 } else { 30 } };
-    let n = run.scale(4_000, 40_000);
+    let n = run.scale(4_000, 30_000);
     run.section(
         "grid-cache-histories",
         "histories dominated by grid operators (shipped and history-private grid files, both search paths), Plain::clear_grids, grid file removal, new contexts and concurrent bursts with a side thread clearing the process-wide cache; non-trivial as above",
